@@ -10,7 +10,7 @@
      encs w text       the code units of a text in width w                 (UtfSpec.v) *)
 From BS Require Import Base UtfSpec UtfModel UtfLemmas StreamIStream StreamSpec StreamModel
   StreamUnits StreamDetProofs StreamEsrProofs StreamLossless StreamTruncated StreamEswProofs.
-From BS Require Import StreamPropProofs.
+From BS Require Import StreamPropProofs StreamIllFormed.
 Local Open Scope nat_scope.
 
 (* ------------------------------------------------------------------ detection, with BOM *)
@@ -123,13 +123,17 @@ Theorem T_C13_truncated_refuted :
 Proof. exact T_C13_truncated_refuted_proof. Qed.
 Print Assumptions T_C13_truncated_refuted.
 
-(* every pair of different source and target widths, every scheme, BOM choice, chunk size, policy,
-   mark, complete prefix and cut point inside the last character *)
+(* every pair of source and target widths except UTF-8 into char - the same-width copy paths UTF-16 into char16_t
+   and UTF-32 into char32_t included -, every scheme, BOM choice, chunk size, policy, mark, complete prefix and
+   cut point inside the last character: so the excluded class is exactly the defect class (F39, raw append).
+   Same widths: a cut inside a code unit leaves a partial unit in the window at end of file; a cut between the
+   halves of a surrogate pair leaves the first half, which the copy of Utf16::Decode holds back (UnexpectedEnd);
+   both are answered by the mark (Skip) or DecodeError (ThrowError), after exactly the complete prefix *)
 Theorem T_C13_truncated_outside : forall K tgt pol mark e b done c L sk fuel,
   K mod 4 = 0 -> 32 <= K -> Forall scalar (done ++ [c]) ->
   unit_size (utf_width e) * length (encs (utf_width e) done) < L <
     unit_size (utf_width e) * length (encs (utf_width e) (done ++ [c])) ->
-  width_eqb (utf_width e) tgt = false ->
+  ~ (utf_width e = W8 /\ tgt = W8) ->
   (b = true \/ starts_ascii done) -> trunc_defect e b done c = false ->
   S (length ((if b then bom e else []) ++ firstn L (text_bytes e (done ++ [c])))) < fuel ->
   exists k, esr_run K tgt pol mark fuel
@@ -138,10 +142,21 @@ Theorem T_C13_truncated_outside : forall K tgt pol mark e b done c L sk fuel,
 Proof. exact T_C13_truncated_outside_proof. Qed.
 Print Assumptions T_C13_truncated_outside.
 
-(* NOT PROVED: the same statement for equal source and target widths 16 -> 16 and 32 -> 32 (where it
-   holds on the current code: kernel-evaluated in T_C13_truncated_example_samewidth, and covered by the
-   correspondence at every cut point); the class excluded above is therefore larger than the true
-   defect class (UTF-8 -> char only).  Independent of widths and of well-formedness of what precedes:
+(* the hypotheses are satisfiable in the same-width cases: cut inside a code unit, between the halves of a pair,
+   inside the second half; UTF-32 into char32_t *)
+Example T_C13_truncated_example_samewidth16 :
+  esr_run 32 W16 Skip [0xFFFD]%N 100 (stream_of (firstn 5 (with_bom true Utf16le [0x61; 0x20AC]%N)) true)
+    = RunDone [ChSuccess; ChEndFile] [0x61; 0xFFFD]%N Utf16le /\
+  esr_run 32 W16 Skip [0xFFFD]%N 100 (stream_of (firstn 6 (with_bom true Utf16be [0x61; 0x1F600]%N)) true)
+    = RunDone [ChSuccess; ChEndFile] [0x61; 0xFFFD]%N Utf16be /\
+  esr_run 32 W16 ThrowError [0xFFFD]%N 100 (stream_of (firstn 7 (with_bom true Utf16le [0x61; 0x1F600]%N)) true)
+    = RunDone [ChDecodeError] [0x61]%N Utf16le /\
+  esr_run 32 W32 Skip [0xFFFD]%N 100 (stream_of (firstn 11 (with_bom true Utf32be [0x61; 0x1F600]%N)) true)
+    = RunDone [ChSuccess; ChEndFile] [0x61; 0xFFFD]%N Utf32be.
+Proof. exact T_C13_truncated_example_samewidth16_proof. Qed.
+Print Assumptions T_C13_truncated_example_samewidth16.
+
+(* Independent of widths and of well-formedness of what precedes:
    at end of file a window holding a partial code unit (the case that used to spin for ever) is
    answered by the mark (Skip: window dropped, output extended by the mark) or by DecodeError *)
 Theorem T_C13_truncated_partial_unit : forall K tgt pol mark data e s out,
@@ -185,6 +200,122 @@ Example T_C13_truncated_example_samewidth :
     = RunDone [ChSuccess; ChEndFile] [0x61; 0xE2; 0x82]%N Utf8.
 Proof. exact T_C13_truncated_example_samewidth_proof. Qed.
 Print Assumptions T_C13_truncated_example_samewidth.
+
+(* ------------------------------------------------------------------ ill-formed text *)
+
+(* The stream is a prefix pre (the BOM, or nothing) that the detection recognises as scheme e, then the bytes of ANY
+   sequence U of code units of e's width, then a trailing part of a code unit (tail, possibly empty).  Source width
+   <> target width: the validating transcoders (same widths are copied unvalidated, T_C13_samewidth_copy below; UTF-8
+   into char is the raw path, F39).
+   For every chunk size the reader's answer is ONE run of the utf family's Transcode (transcode, UtfModel.v; C12)
+   over the whole of U followed by the end-of-file rule: where the chunk boundaries fall plays no role, also when
+   they fall inside an ill-formed or uncompleted sequence.  The stream "ends short" when that run stops before the
+   end of U (UnexpectedEnd: uncompleted sequence at the end; InvalidSequence: ThrowError at the first ill-formed
+   sequence) or when a part of a code unit follows:
+     Skip       : Success^k, EndFile;  output = the run's output, extended by the mark when the stream ends short
+     ThrowError : Success^k, then DecodeError when the stream ends short, else EndFile;  output = the run's output *)
+Theorem T_C13_illformed_one_run : forall K tgt pol mark e pre U tail sk fuel,
+  K mod 4 = 0 -> 32 <= K ->
+  units (utf_width e) U -> width_eqb (utf_width e) tgt = false ->
+  bytes pre -> bytes tail -> length tail < unit_size (utf_width e) ->
+  let data := pre ++ units_bytes (utf_endian e) (utf_width e) U ++ tail in
+  data <> [] -> detect (firstn K data) = Ok (e, length pre) -> S (length data) < fuel ->
+  let r := transcode (utf_width e) tgt pol mark U [] in
+  let short := match r_code r with Success => negb (length tail =? 0) | _ => true end in
+  exists k, esr_run K tgt pol mark fuel (stream_of data sk) =
+    match pol with
+    | Skip => RunDone (repeat ChSuccess k ++ [ChEndFile]) (r_out r ++ if short then mark else []) e
+    | ThrowError => RunDone (repeat ChSuccess k ++ [if short then ChDecodeError else ChEndFile]) (r_out r) e
+    end.
+Proof. exact esr_one_run. Qed.
+Print Assumptions T_C13_illformed_one_run.
+
+(* Skip, in the terms of the specification (skip_spec, UtfSpec.v; T_C12_skip lifted through the chunked reader):
+   the output is U with every ill-formed sequence - an uncompleted one at the end included - replaced by the
+   mark and every well-formed character re-encoded, n replacements; a trailing part of a code unit after units
+   that end complete gives one more mark.  No DecodeError, no hang, EndFile at the end *)
+Theorem T_C13_illformed_skip : forall K tgt mark e pre U tail sk fuel,
+  K mod 4 = 0 -> 32 <= K ->
+  units (utf_width e) U -> width_eqb (utf_width e) tgt = false ->
+  bytes pre -> bytes tail -> length tail < unit_size (utf_width e) ->
+  let data := pre ++ units_bytes (utf_endian e) (utf_width e) U ++ tail in
+  data <> [] -> detect (firstn K data) = Ok (e, length pre) -> S (length data) < fuel ->
+  exists k o n extra, skip_spec (utf_width e) tgt mark U o n /\
+    (extra = [] \/ (extra = mark /\ tail <> [])) /\
+    esr_run K tgt Skip mark fuel (stream_of data sk) = RunDone (repeat ChSuccess k ++ [ChEndFile]) (o ++ extra) e.
+Proof. exact esr_ill_skip. Qed.
+Print Assumptions T_C13_illformed_skip.
+
+(* ThrowError (T_C12_throw lifted): U = the well-formed prefix ++ rest where no character's encoding begins rest;
+   the output is the target encoding of exactly that prefix; the last result is DecodeError unless rest and tail
+   are both empty (then EndFile); only Success before it *)
+Theorem T_C13_illformed_throw : forall K tgt mark e pre U tail sk fuel,
+  K mod 4 = 0 -> 32 <= K ->
+  units (utf_width e) U -> width_eqb (utf_width e) tgt = false ->
+  bytes pre -> bytes tail -> length tail < unit_size (utf_width e) ->
+  let data := pre ++ units_bytes (utf_endian e) (utf_width e) U ++ tail in
+  data <> [] -> detect (firstn K data) = Ok (e, length pre) -> S (length data) < fuel ->
+  exists k cps rest, Forall scalar cps /\ U = encs (utf_width e) cps ++ rest /\
+    (rest <> [] -> forall s, scalar s -> ~ is_prefix (enc (utf_width e) s) rest) /\
+    esr_run K tgt ThrowError mark fuel (stream_of data sk) =
+      RunDone (repeat ChSuccess k ++ [if (length rest =? 0) && (length tail =? 0) then ChEndFile else ChDecodeError])
+              (encs tgt cps) e.
+Proof. exact esr_ill_throw. Qed.
+Print Assumptions T_C13_illformed_throw.
+
+(* the hypotheses on pre hold for every stream that begins with a BOM, whatever follows (UTF-16LE: not 00 00,
+   which would make it the UTF-32LE BOM) *)
+Theorem T_C13_illformed_detect_bom : forall K e rest, 32 <= K -> (e = Utf16le -> starts_00 rest = false) ->
+  bytes (bom e) /\ bom e ++ rest <> [] /\ detect (firstn K (bom e ++ rest)) = Ok (e, length (bom e)).
+Proof. exact ill_detect_bom. Qed.
+Print Assumptions T_C13_illformed_detect_bom.
+
+(* ill_ex8 = 27 x 'a', E2 82 41, C3 A9, FF, 'b', F0 9F: with K = 32 the first window ends inside E2 82 | 41;
+   ill_ex16 = 14 x 'a', D83D, 'b', DE00, D83D DE00, D800 (+ one byte of a further unit) *)
+Example T_C13_illformed_example :
+  esr_run 32 W16 Skip [0xFFFD]%N 100 (stream_of (bom Utf8 ++ ill_ex8) true)
+    = RunDone [ChSuccess; ChSuccess; ChEndFile] (repeat 0x61 27 ++ [0xFFFD; 0xE9; 0xFFFD; 0x62; 0xFFFD])%N Utf8 /\
+  esr_run 64 W16 Skip [0xFFFD]%N 100 (stream_of (bom Utf8 ++ ill_ex8) true)
+    = RunDone [ChSuccess; ChEndFile] (repeat 0x61 27 ++ [0xFFFD; 0xE9; 0xFFFD; 0x62; 0xFFFD])%N Utf8 /\
+  r_out (transcode W8 W16 Skip [0xFFFD]%N ill_ex8 []) = (repeat 0x61 27 ++ [0xFFFD; 0xE9; 0xFFFD; 0x62])%N /\
+  esr_run 32 W16 ThrowError [0xFFFD]%N 100 (stream_of (bom Utf8 ++ ill_ex8) true)
+    = RunDone [ChDecodeError] (repeat 0x61 27)%N Utf8 /\
+  esr_run 32 W8 Skip [0x3F]%N 100 (stream_of (bom Utf16be ++ units_bytes BE W16 ill_ex16 ++ [0xD8]%N) true)
+    = RunDone [ChSuccess; ChSuccess; ChEndFile]
+        (repeat 0x61 14 ++ [0x3F; 0x62; 0x3F; 0xF0; 0x9F; 0x98; 0x80; 0x3F])%N Utf16be /\
+  esr_run 40 W8 ThrowError [0x3F]%N 100 (stream_of (bom Utf16be ++ units_bytes BE W16 ill_ex16) true)
+    = RunDone [ChDecodeError] (repeat 0x61 14)%N Utf16be.
+Proof. exact ill_example_proof. Qed.
+Print Assumptions T_C13_illformed_example.
+
+(* Same widths (UTF-16 into char16_t, UTF-32 into char32_t), ANY sequence of code units, whole or followed by a part
+   of a code unit, every chunk size: the units are copied as they are - nothing is validated, by design of the
+   same-width paths of Utf16::Decode / Utf32::Decode -, except that a first half of a surrogate pair at the very end
+   (UTF-16; ends_high) is held back.  It and a trailing part of a code unit are answered by the mark (Skip) /
+   DecodeError (ThrowError).  With T_C13_illformed_one_run this describes the reader on every input for every pair
+   of widths but UTF-8 into char (the raw path, F39); it contains the same-width cases of T_C13_truncated_outside *)
+Theorem T_C13_samewidth_copy : forall K tgt pol mark e pre U tail sk fuel,
+  K mod 4 = 0 -> 32 <= K ->
+  units (utf_width e) U -> utf_width e = tgt -> tgt <> W8 ->
+  bytes pre -> bytes tail -> length tail < unit_size (utf_width e) ->
+  let data := pre ++ units_bytes (utf_endian e) (utf_width e) U ++ tail in
+  data <> [] -> detect (firstn K data) = Ok (e, length pre) -> S (length data) < fuel ->
+  let copy := if ends_high tgt U then removelast U else U in
+  let short := ends_high tgt U || negb (length tail =? 0) in
+  exists k, esr_run K tgt pol mark fuel (stream_of data sk) =
+    match pol with
+    | Skip => RunDone (repeat ChSuccess k ++ [ChEndFile]) (copy ++ if short then mark else []) e
+    | ThrowError => RunDone (repeat ChSuccess k ++ [if short then ChDecodeError else ChEndFile]) copy e
+    end.
+Proof. exact esr_samewidth. Qed.
+Print Assumptions T_C13_samewidth_copy.
+
+(* a lone low surrogate goes through a UTF-16 stream into char16_t *)
+Example T_C13_illformed_example_samewidth :
+  esr_run 32 W16 Skip [0xFFFD]%N 100 (stream_of (bom Utf16le ++ units_bytes LE W16 [0x61; 0xDC00; 0x62]%N) true)
+    = RunDone [ChSuccess; ChEndFile] [0x61; 0xDC00; 0x62]%N Utf16le.
+Proof. exact ill_example_samewidth_proof. Qed.
+Print Assumptions T_C13_illformed_example_samewidth.
 
 (* ------------------------------------------------------------------ the writer *)
 
